@@ -58,6 +58,24 @@ BODIES = [
     ('del-local', 'tmp = 1\ndel tmp\nreturn SITE'),
     ('assert-raise', 'assert True, "ok"\nif False:\n    raise ValueError from None\nreturn SITE'),
     ('docstring', '"""doc\n\n    indented\n"""\nreturn SITE'),
+    ('nested-def-kwonly-required', 'def pick(item, *, field):\n    return item\nreturn SITE'),
+    ('nested-def-kwonly-mixed', 'def pick(item, *rest, field, other=2, **more):\n    return item\nreturn SITE'),
+    ('nested-def-posonly', 'def pick(item, /, extra=1):\n    return item\nreturn SITE'),
+    ('nested-def-annotated', 'def pick(item: int, *a: str, k: float = 1.0, **kw: bytes) -> list:\n    return []\nreturn SITE'),
+    ('nested-def-decorated', 'import functools\n@functools.lru_cache(maxsize=None)\ndef pick(item):\n    return item\nreturn SITE'),
+    ('nested-async-def', 'async def later(*a, **k):\n    return callee(*a, **k)\nreturn SITE'),
+    ('lambda-kwonly-required', 'g = lambda *, scale: scale\nreturn SITE'),
+    ('lambda-in-default', 'def pick(item, key=lambda v, *, r=1: v):\n    return item\nreturn SITE'),
+    ('multi-for-comprehension', 'pairs = [(i, j) for i in range(2) for j in range(2) if i != j]\nreturn SITE'),
+    ('nested-comprehension-lambda', 'fs = [lambda x, *, k=i: x + k for i in range(2)]\nreturn SITE'),
+    ('call-unpacking-elsewhere', 'print(*[1], *[2], **{"sep": ""}, **{"end": ""})\nreturn SITE'),
+    ('dict-set-unpacking', 'merged = {**{"a": 1}, **{"b": 2}}\nitems = [*range(2), *range(2)]\nreturn SITE'),
+    ('global-and-del', 'global _c07_other\n_c07_other = 2\ndel _c07_other\nreturn SITE'),
+    ('try-except-star', 'try:\n    pass\nexcept* ValueError as eg:\n    pass\nreturn SITE'),
+    ('type-alias-statement', 'type Alias = int\nreturn SITE'),
+    ('chained-comparison-boolop', 'ok = 0 <= len(args) < 5 and not kwargs or True\nreturn SITE'),
+    ('augmented-subscript', 'table = {}\ntable.setdefault("k", []).append(1)\ntable["k"] += [2]\nreturn SITE'),
+    ('return-in-loop-else', 'for i in range(1):\n    continue\nelse:\n    return SITE'),
 ]
 KINDS = ('def', 'async-def', 'generator', 'decorated', 'method', 'exec-no-source', 'lambda')
 
@@ -255,11 +273,15 @@ def h_constructs(ctx, cfg):
                                  (' +' + BODIES[second][0]) if second < len(BODIES) else '')
         ctx.case('construct ' + label, nontrivial=False)
         if second < len(BODIES):
-            b2 = BODIES[second][1].replace('return SITE', 'pass').replace('SITE', '0')
+            b2 = BODIES[second][1].replace('SITE', '0')
+            b2 = 'if len(args) > 10 ** 9:\n' + '\n'.join('    ' + l if l else l for l in b2.split('\n'))
             saved = BODIES[body_idx]
             BODIES[body_idx] = (saved[0], b2 + '\n' + saved[1])
             try:
                 obj, deflist = _construct(body_idx, kind, with_site, with_params)
+            except SyntaxError:
+                ctx.count('pair-does-not-compile')
+                return
             finally:
                 BODIES[body_idx] = saved
         else:
@@ -395,8 +417,8 @@ def h_sphinx(ctx, cfg):
 def plan(tier):
     if tier == 'quick':
         return [
-            dict(name='constructs', fn='h_constructs', depth=8, budget_s=300, cfg=dict(pairs=False),
-                 bounds='24 statement constructs x 7 function kinds x with/without forwarding call x with/without own parameters; 44 special objects',
+            dict(name='constructs-pairs', fn='h_constructs', depth=9, budget_s=300, cfg=dict(pairs=True),
+                 bounds='every single and every ordered pair of 43 statement constructs x 7 function kinds x with/without forwarding call x with/without own parameters; 44 special objects',
                  min_nontrivial=300, must_reach=['returns-whenever-inspect-does', 'raises-the-same-exception-type',
                                                  'only-narrows-own-signature']),
             dict(name='corpus-quick', fn='h_corpus', depth=8, budget_s=300, cfg=dict(thorough=False),
@@ -408,7 +430,7 @@ def plan(tier):
         ]
     return [
         dict(name='constructs-pairs', fn='h_constructs', depth=10, budget_s=2400, cfg=dict(pairs=True),
-             bounds='every pair of the 24 statement constructs x 7 function kinds x site x parameters; 44 special objects', min_nontrivial=300),
+             bounds='every pair of the 43 statement constructs x 7 function kinds x site x parameters; 44 special objects', min_nontrivial=300),
         dict(name='corpus-thorough', fn='h_corpus', depth=10, budget_s=3000, cfg=dict(thorough=True),
              bounds='every callable reachable from ~120 importable modules (stdlib, packages installed in /venv, sigtools)', min_nontrivial=1000),
         dict(name='sphinx-hook', fn='h_sphinx', depth=4, budget_s=120, cfg=dict(), bounds='27 documentable names of the fixture module',
